@@ -124,19 +124,25 @@ def run_case(scn, drv):
                 user['x'] = x2.copy()
                 pr2 = {k_: np.asarray(v_, dtype=float)[:T2] for k_, v_ in scn['prices2'].items()}
                 with Quiet():
-                    op_a = rec2['portf'].setup_optim_problem(pr2, rec2['tg'], fix_time_window=user)
                     op_b = rec2['portf'].setup_optim_problem(pr2, rec2['tg'], fix_time_window={'I': I_arg, 'x': x2.copy()})
                 feats.append('rolling-second-grid')
+                try:
+                    with Quiet():
+                        op_a = rec2['portf'].setup_optim_problem(pr2, rec2['tg'], fix_time_window=user)
+                except Exception as e:
+                    viol('the fix_time_window dictionary used before on the longer horizon raises %s on the shorter one (a fresh dictionary with the same content works): %s' % (
+                        type(e).__name__, str(e)[:160]), what='second_use_other_grid', err=impl.err_class(e))
+                    raise StopIteration
                 if not (np.array_equal(op_a.l, op_b.l) and np.array_equal(op_a.u, op_b.u)):
                     j2 = int(np.argmax((np.asarray(op_a.l) != np.asarray(op_b.l)) | (np.asarray(op_a.u) != np.asarray(op_b.u))))
                     viol('the fix_time_window dictionary used before on the longer horizon, with updated values, pins a different part on the shorter horizon than a fresh dictionary with the same content: variable %d has bounds [%s, %s] instead of [%s, %s]' % (
                         j2, op_a.l[j2], op_a.u[j2], op_b.l[j2], op_b.u[j2]), what='second_use_other_grid')
-        except AssertionError as e:
-            viol('the fix_time_window dictionary used before on the longer horizon is refused on the shorter one: %s' % str(e)[:160], what='second_use_other_grid', err='assert')
-        except (IndexError, ValueError, TypeError) as e:
-            viol('the fix_time_window dictionary used before on the longer horizon raises %s on the shorter one: %s' % (type(e).__name__, str(e)[:160]), what='second_use_other_grid', err=impl.err_class(e))
+        except StopIteration:
+            pass
         except Exception as e:
-            feats.append('rolling-error:' + impl.err_class(e))
+            # the shorter horizon itself cannot be set up / solved with these assets (e.g. a coarse asset frequency that does
+            # not fit it: known finding F-19b): not about the dictionary
+            feats.append('rolling-skip:' + impl.err_class(e))
     m = op_fix.mapping
     fixed_vars = sorted(set(int(i) for i in m.index[m['time_step'].isin(steps)]))
     free_vars = [j for j in range(len(op_fix.c)) if j not in set(fixed_vars)]
